@@ -61,7 +61,7 @@ fn main() {
         match wl.as_str() {
             // upper-layer workloads observe the API; chmux hook events would only bloat their traces
             "rwlock" => install_hook_sink_for(&["rw_"]),
-            "robs_script" | "bcast" | "watch" | "typed_base" | "typed_mpsc" | "rtc" | "rtc_once" | "rfn" | "robs_chain" | "robs_err" | "robs_list" | "io" | "wiring" | "handle" | "lazy" => {}
+            "robs_script" | "bcast" | "watch" | "typed_base" | "typed_mpsc" | "rtc" | "rtc_once" | "rfn" | "robs_chain" | "robs_err" | "robs_list" | "io" | "wiring" | "handle" | "lazy" | "stream_hostile" => {}
             _ => install_hook_sink(),
         }
         match wl.as_str() {
@@ -146,6 +146,9 @@ fn main() {
             }
             "robs_chain" => {
                 rt.block_on(robs::chain_scenario(s, get("coll", 4)));
+            }
+            "stream_hostile" => {
+                rt.block_on(chmux_misc::stream_hostile(s));
             }
             "handle" => {
                 rt.block_on(handles::handle_scenario(s, get("cut", 0) != 0));
